@@ -1,5 +1,6 @@
 import TieD.ReachProofs
 import TieD.SumProofs
+import TieD.UpdateProofs
 /-!
 # TIED on every reachable diagram — no shape hypothesis left
 
@@ -37,5 +38,20 @@ theorem TIED_sum {V : Type} [AddCommMonoid V] (a b s : Diagram V) (ha : Reach a)
         (b.root : Int) (childOf b.levels) (adderOf b.levels) (b.diameter : Int)
       = (unitsI s.units, (s.root : Int), nodesOf s.levels, childOf s.levels, adderOf s.levels, (s.diameter : Int)) :=
   sum_eq a b s ha hb hC h
+
+/-- `ADD.update(location, avalue, increment)` as written (template: NumPy fancy indexing — `+=` reads the ORIGINAL entries, so an entry listed twice is incremented once),
+on a location list without repetitions (what `get_update_location` / `compile` produce: `LocSpec`): the edge values of the model's `Diagram.update` -/
+theorem TIED_update {V : Type} [Add V] [Zero V] (d : Diagram V) (loc : List (ℕ × ℕ × ℕ)) (v : V) (inc : Bool) (hnd : loc.Nodup) :
+    letI : Inhabited V := ⟨0⟩
+    GenD.add_update (· + ·) (adderOf d.levels) (loc.map (fun e => ((e.1 : Int), (e.2.1 : Int), (e.2.2 : Int)))) v inc
+      = adderOf (d.update loc v inc).levels :=
+  update_eq d loc v inc hnd
+
+/-- `ADD.construct_chain` as written (template) builds the model's `chain` -/
+theorem TIED_chain {V : Type} [Add V] [Zero V] (units : List ℕ) (C : ℕ) :
+    GenD.construct_chain (0 : V) (unitsI units) (C : Int)
+      = (unitsI (chain (V := V) units C).units, ((chain (V := V) units C).root : Int), nodesOf (chain (V := V) units C).levels, childOf (chain (V := V) units C).levels,
+         adderOf (chain (V := V) units C).levels, ((chain (V := V) units C).diameter : Int)) :=
+  chain_eq units C
 
 end DsProofs.TieD
